@@ -88,6 +88,7 @@ def _job(idx: int) -> List[Dict[str, Any]]:
         inst("R5.1", "VIOLATED" if problems else "HOLDS", c, "; ".join(sorted(set(problems))) + (f": step = {show(D, 220)}" if problems else ""), {"step": show(D, 300)}, m, fn, ln)
     # ---------------------------------------------------------------- R5.2 per-branch sign (interval runs under assumed rank relations)
     lem: Dict[str, str] = {}
+    failed_lemmas: set = set()
     family_signs: Dict[str, Dict[int, List]] = {}
     for rel in ("LT", "EQ", "GT"):
         seeds = [(q, i, frozenset({rel})) for (q, i) in info["pairs"]]
@@ -100,6 +101,7 @@ def _job(idx: int) -> List[Dict[str, Any]]:
         if ocr.undecided or not ocr.returned:
             inst("R5.2", "UNDECIDED", f"relation {rel}", "; ".join(ocr.undecided[:3]))
             return out
+        failed_lemmas |= {f"{ev.data['name']}: {ev.data['why']}" for ev in ocr.I.events if ev.kind == "lemma-failed"}
         sites: Dict[int, List] = {}
         for i in pr.incs:
             if i["tag"] in info["omega_tags"] and i["op"] in ("Add", "Sub") and isinstance(i["rhs"], Num) and i["rhs"].rng is not None:
@@ -115,8 +117,8 @@ def _job(idx: int) -> List[Dict[str, Any]]:
             for node, r, fn in family_signs[rel].values():
                 signs.append("pos" if r.ge0() else "neg" if r.le0() else "mixed")
             ok = sorted(signs) == ["neg", "pos"]
-            inst("R5.2", "HOLDS" if ok else "VIOLATED", f"own-stage term >= 0, other-stage term <= 0 (rank(q) {rel} rank(i))",
-                 "" if ok else f"the two stage terms have interval signs {signs}: {[(norm_text(n, 50), str(r)) for n, r, _ in family_signs[rel].values()]} — a team alone in first place could lose mu or a lower-placed stage could add mu",
+            inst("R5.2", "HOLDS" if ok else ("UNDECIDED" if failed_lemmas else "VIOLATED"), f"own-stage term >= 0, other-stage term <= 0 (rank(q) {rel} rank(i))",
+                 "" if ok else (f"[inconclusive: {sorted(failed_lemmas)[0]}] " if failed_lemmas else "") + f"the two stage terms have interval signs {signs}: {[(norm_text(n, 50), str(r)) for n, r, _ in family_signs[rel].values()]} — a team alone in first place could lose mu or a lower-placed stage could add mu",
                  {"ranges": [str(r) for _, r, _ in family_signs[rel].values()]})
     else:
         for rel, want in (("GT", "ge0"), ("LT", "le0")):
@@ -125,8 +127,8 @@ def _job(idx: int) -> List[Dict[str, Any]]:
             for node, r, fn in family_signs[rel].values():
                 ok = r.ge0() if want == "ge0" else r.le0()
                 m_, _, qn = fn.partition("::")
-                inst("R5.2", "HOLDS" if ok else "VIOLATED", f"omega increment against a {'worse' if rel == 'GT' else 'better'}-placed team is {'>= 0' if want == 'ge0' else '<= 0'}: {norm_text(node, 60)}",
-                     "" if ok else f"interval of the increment is {r}: beating a team can cost mu / losing can earn it (sign of a branch flipped or win/loss branches swapped)",
+                inst("R5.2", "HOLDS" if ok else ("UNDECIDED" if failed_lemmas else "VIOLATED"), f"omega increment against a {'worse' if rel == 'GT' else 'better'}-placed team is {'>= 0' if want == 'ge0' else '<= 0'}: {norm_text(node, 60)}",
+                     "" if ok else (f"[inconclusive: {sorted(failed_lemmas)[0]}] " if failed_lemmas else "") + f"interval of the increment is {r}: beating a team can cost mu / losing can earn it (sign of a branch flipped or win/loss branches swapped)",
                      {"range": str(r)}, m_, qn, getattr(node, "lineno", 0))
     for k, why in lem.items():
         inst("R5.L", "ASSUMED", f"lemma {k}", why)
